@@ -34,7 +34,7 @@ type Gen struct {
 var timeType = reflect.TypeOf(time.Time{})
 var rawType = reflect.TypeOf(json.RawMessage{})
 
-var boundaryStrings = []string{"", "a", "hello world", "quote\"inside", "back\\slash", "tab\tnew\nline", "ünïcödé ✓", "😀 non-BMP", "<html>&amp;", "  ", "null", "true", "123", " lead", "trail ", "{\"json\":1}", "a/b?c=d&e=f#g", "%41%zz", "+plus", "semi;colon", "\x7f", "\u0001ctl"}
+var boundaryStrings = []string{"", "a", "hello world", "quote\"inside", "back\\slash", "tab\tnew\nline", "ünïcödé ✓", "😀 non-BMP", "<html>&amp;", "  ", "null", "true", "123", " lead", "trail ", "{\"json\":1}", "a/b?c=d&e=f#g", "%41%zz", "+plus", "semi;colon", "Smith, John", "a,b,c", "100% #1?", "\x7f", "\u0001ctl"}
 
 func (g *Gen) str() string {
 	if g.Tag != "" {
@@ -45,7 +45,7 @@ func (g *Gen) str() string {
 	}
 	n := g.Rng.Intn(12)
 	var b strings.Builder
-	alpha := "abcXYZ019 _-./éß\"\\"
+	alpha := "abcXYZ019 _-./éß\"\\,%?#"
 	rs := []rune(alpha)
 	for i := 0; i < n; i++ {
 		b.WriteRune(rs[g.Rng.Intn(len(rs))])
